@@ -617,6 +617,11 @@ def run(R):
     R.notes.append("transport (requests/urllib3/TCP) is an oracle; URL-safe names only (no '?', '#', '%', '..' in "
                    "relative names: requests rewrites such URLs); chunk coordinates non-negative (the documented "
                    "rewrite rule matches [0-9]+ only); server = harness/httpd.py, the counterpart of StHttp.serve")
+    R.notes.append("server behaviours 'cut-body' / 'cut-chunked' (connection lost in the middle of the body) and "
+                   "'bad-gzip' (damaged Content-Encoding: gzip stream) are modelled too (D_C12.scripted: SCutBody = a "
+                   "transport failure, SBadGzip = an encoded body that does not gunzip), so they are correspondence "
+                   "streams as well as oracle streams; the one-accessor multi-scale sweep compares outcomes with the "
+                   "model and with the local read, not request traces (shards are cached by the accessor)")
     dispatch_part(R, 40 if quick else 600)
     plain_part(R, 24 if quick else 600)
     sharded_part(R, 21 if quick else 400)
